@@ -9,7 +9,7 @@ and every dump line extended by `pool=… txorph=… ev=…`.
 namespace BytomModel.Drv.NodePool
 open BytomModel.Drv BytomModel.Node BytomModel.Ledger BytomModel.NodeLedger BytomModel.NodePool
 open BytomModel.Drv.Node (kv parseId parseSup joinOr)
-open BytomModel.Drv.NodeLedger (parseTx parseTxs)
+open BytomModel.Drv.NodeLedger (parseTx parseTxs parseNamed)
 
 structure DState where
   s : NodePool.State
@@ -77,6 +77,17 @@ def step (st : Option DState) (line : String) : Option DState × String :=
       let (o, d') := dump { d with s := s' } rs
       (some d', o)
     | _, _ => (st, "bad-op")
+  | ["poolorder", ids] =>
+    match st with
+    | some d =>
+      -- adopt the arrival order observed on the real pool (restored transactions re-enter in
+      -- Go map order); ids the model does not pool are ignored, unlisted ones keep their place after
+      let want := (ids.splitOn ",").filterMap (parseNamed "t")
+      let p := d.s.pool.pool
+      let listed := want.filterMap (fun i => (p.find? (fun e => e.1 == i)))
+      let rest := p.filter (fun e => !want.contains e.1)
+      (some { d with s := { d.s with pool := { d.s.pool with pool := listed ++ rest } } }, "ok")
+    | none => (st, "bad-op")
   | "propose" :: _ =>
     match st with
     | some d =>
